@@ -23,6 +23,18 @@ func (align Align) String() string {
 	return fmt.Sprintf("align %d", uint64(align))
 }
 
+// funcAttrString returns the string representation of the given function
+// attribute of a function header, a global variable or a call site. An
+// alignment among the function attributes is written `align=8` there, as in
+// attribute groups; `align 8` is the syntax of the alignment field of a function
+// or global variable, and is not valid at a call site.
+func funcAttrString(attr FuncAttribute) string {
+	if align, ok := attr.(Align); ok {
+		return fmt.Sprintf("align=%d", uint64(align))
+	}
+	return attr.String()
+}
+
 // AlignStack is a stack alignment attribute.
 type AlignStack uint64
 
